@@ -21,6 +21,7 @@ MANIFEST = dict(
          "iloc) for every rectangular attribute matrix, table size, removed-column set and page cut: the value used "
          "for a rendered cell is the attribute at the cell's original (row, column) position, whatever the page "
          "partition. Tied to the code by observation of every body attribute in scalar / per-column / matrix shape "
+         "and as recycled per-column / per-row patterns of every length 1..ncol+1 / 1..nrow+1 "
          "on paginated tables with removed columns — each shape in every spelling the constructor accepts (Python "
          "scalar / list / tuple / nested list, numpy scalar / 0-d / 1-D / 2-D array, polars Series / DataFrame) — and by "
          "a paginated-vs-unpaginated metamorphic check.",
@@ -36,8 +37,11 @@ MANIFEST = dict(
 RULE = ("every body attribute × shapes {scalar, 1×ncol, nrow×ncol} with random legal values × tables of 1..40 rows × "
         "nrow from one page to many × 0..k removed columns at any position × the three strategies; a second stream "
         "draws every shape in every spelling RTFBody accepts for the attribute (Python scalar / [v] / [[v]] / list / "
-        "tuple / nested list, numpy scalar, numpy 0-d / 1-D / 2-D array, polars Series / DataFrame); non-trivial = ≥ 2 "
-        "pages and at least one matrix-shaped attribute; distinct by (strategy, nrow, shapes, spellings, page sizes)")
+        "tuple / nested list, numpy scalar, numpy 0-d / 1-D / 2-D array, polars Series / DataFrame); a third stream "
+        "draws recycled patterns: per-column patterns of length 1..ncol+1, per-row patterns / matrices of 1..nrow+1 rows "
+        "(shorter, equal to, longer than the original table), plain or spelled, mostly with columns removed at the front "
+        "or anywhere; non-trivial = ≥ 2 "
+        "pages and at least one matrix-shaped attribute, or a short column pattern whose cycle the removed columns shift; distinct by (strategy, nrow, shapes, spellings, page sizes)")
 
 # the pool mixes names whose alphabetical order differs from their order in the colour table ("white" is entry 1 of
 # the table and last by name; gray2 < gray10 < gray100 by index, gray10 < gray100 < gray2 by name), so that an index
@@ -147,10 +151,80 @@ class C09(layfamily.Family):
     BASE = {"quick": 260, "thorough": 3500}          # plain Python spellings (the stream as it always was)
     SPELLED = {"quick": 200, "thorough": 2500}       # the same shapes in every spelling the constructor accepts
 
+    # recycled patterns: per-column patterns of every length 1 .. ncol+1, per-row patterns / matrices of 1 .. nrow+1 rows
+    # (shorter, equal to and longer than the ORIGINAL table), mostly on tables that lose columns (page_by / subline_by)
+    PATTERNS = {"quick": 140, "thorough": 2000}
+    PAT_STRATS = ["page_by", "subline", "page_by_np_first", "subline_page_by", "page_by", "plain", "subline", "page_by_np"]
+
     def ndocs(self, tier):
-        return self.BASE.get(tier, 3500) + self.SPELLED.get(tier, 2500)
+        return self.BASE.get(tier, 3500) + self.SPELLED.get(tier, 2500) + self.PATTERNS.get(tier, 2000)
 
     def gen(self, rng, k, tier):
+        if k >= self.BASE.get(tier, 3500) + self.SPELLED.get(tier, 2500):
+            return self.gen_patterns(rng, k - self.BASE.get(tier, 3500) - self.SPELLED.get(tier, 2500))
+        return self.gen_shapes(rng, k, tier)
+
+    def gen_patterns(self, rng, k):
+        """Attribute values given as PATTERNS that rtflite recycles over the original table: a per-column list (or
+        one-row matrix) of every length 1 .. ncol+1, a per-row tuple / one-column matrix of every length 1 .. nrow+1,
+        matrices of both — on tables from which page_by / subline_by take columns out (at the front or anywhere), and
+        on tables that keep their columns.  A column pattern shorter than the original column count whose cycle the
+        removed columns shift is where "the attribute at the cell's ORIGINAL column" and "the attribute at the cell's
+        position among the displayed columns" differ."""
+        n = rng.randint(1, 30)
+        nrow = rng.choice([rng.randint(4, 12), rng.randint(4, 12), 60])
+        spec, info = laygen.gen_spec(rng, strategy=self.PAT_STRATS[k % 8], n=n, nrow=nrow, ndata=2 + (k // 8) % 4,
+                                     long_rows=False, dividers=False,
+                                     header_mode=rng.choice(["explicit", "none", "default"]))
+        labels = []
+        if k % 3 != 0:
+            permute_columns(rng, spec, info)
+        cols = spec["df"]["cols"]
+        ncols = len(cols)
+        disp_idx = [cols.index(c) for c in info["displayed"]]
+        chosen = rng.sample(sorted(ATTRS), rng.randint(1, 4))
+        shapes, spellings = {}, {}
+        for ai, a in enumerate(chosen):
+            g = ATTRS[a]
+            lens = list(range(1, ncols + 2)) + list(range(2, ncols))
+            L = lens[(k // 8 + ai) % len(lens)] if rng.random() < 0.7 else rng.randint(1, ncols + 1)
+            mlens = sorted({1, 2, 3, max(1, n - 1), n, n + 1, rng.randint(1, n + 1)})
+            M = mlens[(k // 4 + ai) % len(mlens)]
+            sh = ["percol", "pattern", "percol", "perrow", "pattern"][(k // 2 + ai * 2 + rng.randrange(2)) % 5]
+            if a in ("cell_height", "cell_justification"):
+                sh = "perrow"      # row-level settings (read from the row's first cell)
+            if sh == "percol":
+                M = 1
+            elif sh == "perrow":
+                L = 1
+            m = [[g(rng) for _ in range(L)] for _ in range(M)]
+            v = m[0] if sh == "percol" else m
+            sample = m[0][0]
+            sp = None
+            if k % 3 == 1:          # every third document: the pattern in another spelling the constructor accepts
+                sp = rng.choice([x for x in SPELLINGS[sh] if accepted(a, x, sample)])
+                spellings[a] = sp
+                labels.append(f"spelling:{sh}:{sp}")
+                if held_flat(a, sh, sp, sample):
+                    labels.append("held:flat-list" + (":no-removal" if not info["removed"] else ":removal"))
+            spec["body"][a] = spell(v, sh, sp) if sp else v
+            shapes[a] = sh
+            if L > 1:
+                labels.append("pattern:cols:" + ("1<L<ncol" if L < ncols else "L=ncol" if L == ncols else "L=ncol+1"))
+            if M > 1:
+                labels.append("pattern:rows:" + ("1<M<nrow" if M < n else "M=nrow" if M == n else "M=nrow+1"))
+            if info["removed"] and 1 < L < ncols:
+                shifted = any(m[r][oc % L] != m[r][j % L] for r in range(M) for j, oc in enumerate(disp_idx))
+                labels.append("pattern:short column pattern × removed columns" + (": cycle shifted by the removal" if shifted else ""))
+        info["attrs"] = chosen
+        info["shapes"] = shapes
+        if spellings:
+            info["spellings"] = spellings
+        info["gen"] = "patterns"
+        info["labels"] = sorted(set(labels))
+        return spec, info
+
+    def gen_shapes(self, rng, k, tier):
         spelled = k >= self.BASE.get(tier, 3500)
         n = rng.randint(1, 40)
         nrow = rng.choice([rng.randint(4, 12), rng.randint(4, 12), 60])
@@ -358,6 +432,10 @@ class C09(layfamily.Family):
                 if b[0] == "data"]
 
     def nontrivial(self, spec, info, ob):
+        if info.get("gen") == "patterns" and any("cycle shifted" in lab for lab in info.get("labels") or []):
+            # a short per-column pattern whose cycle the removed columns shift: any number of pages
+            return [info["strategy"], "patterns", str(spec["df"]["cols"]), json.dumps(info["shapes"], sort_keys=True),
+                    json.dumps({a: spec["body"][a] for a in info["attrs"]}, sort_keys=True)[:300], len(ob["pages"])]
         if len(ob["pages"]) >= 2 and ("matrix" in info["shapes"].values() or "pattern" in info["shapes"].values()):
             return [info["strategy"], info["nrow"], json.dumps(info["shapes"], sort_keys=True),
                     json.dumps(info.get("spellings") or {}, sort_keys=True),
@@ -411,7 +489,8 @@ def run(res, build):
             res.count(f"attr:{a}")
         for lab in o["info"].get("labels") or []:       # spelling:<shape>:<spelling>, held:flat-list:…
             res.count(lab)
-        res.count("stream:" + ("spelled" if "spellings" in o["info"] else "plain"))
+        res.count("stream:" + ("patterns" if o["info"].get("gen") == "patterns" else
+                               "spelled" if "spellings" in o["info"] else "plain"))
         if o["status"] == "ok":
             res.count(f"pages:{min(len(o['pages']), 9)}")
         else:
